@@ -24,7 +24,7 @@ pub const PASSWORDS: [(&str, &str); 8] = [
     ("bmp", "пароль-密码"),
     ("astral", "pw😀key"),
     ("len33", "0123456789abcdefghijklmnopqrstuvw"),
-    ("len127", "0123456789012345678901234567890123456789012345678901234567890123456789012345678901234567890123456789012345678901234567890123456"),
+    ("len120", "012345678901234567890123456789012345678901234567890123456789012345678901234567890123456789012345678901234567890123456789"),
 ];
 
 pub fn run(ctx: &Ctx, rec: &mut Recorder) -> Result<(), String> {
@@ -35,8 +35,8 @@ pub fn run(ctx: &Ctx, rec: &mut Recorder) -> Result<(), String> {
     let (nprog, rich, classes, cfg_sample, enc_mode): (u64, bool, Vec<&str>, usize, &str) = match flavor.as_str() {
         "c02" => (ctx.qt(16, 600), true, vec!["ascii", "delims", "latin1"], 32, "none"),
         "c03" => (ctx.qt(16, 600), true, vec!["ascii", "delims", "latin1", "cp1252", "bmp", "astral", "controls"], 32, "some"),
-        "c05" => (ctx.qt(60, 3000), true, vec!["ascii", "delims", "latin1", "bmp"], 5, "all"),
-        "c10" => (ctx.qt(300, 20000), false, vec!["ascii", "delims", "latin1", "cp1252", "bmp", "astral", "controls", "bomlike"], 3, "none"),
+        "c05" => (ctx.qt(24, 1500), true, vec!["ascii", "delims", "latin1", "bmp"], 4, "all"),
+        "c10" => (ctx.qt(250, 15000), true, vec!["ascii", "delims", "latin1", "cp1252", "bmp", "astral", "controls", "bomlike"], 3, "none"),
         "c28" => (ctx.qt(300, 20000), true, vec!["ascii"], 3, "none"),
         other => return Err(format!("unknown DOC flavor {other}")),
     };
@@ -52,6 +52,20 @@ pub fn run(ctx: &Ctx, rec: &mut Recorder) -> Result<(), String> {
         let mut cfgs: Vec<usize> = (0..all_cfgs.len()).collect();
         if cfg_sample < cfgs.len() {
             r.shuffle(&mut cfgs);
+            // at most one configuration with object streams per program (slow to open, see below)
+            // (encrypted files with object streams are read by the library through its recovery
+            // path at 10-30 CPU-seconds per open — a finding of its own — so only a few programs
+            // include such a configuration)
+            let mut seen_os = (flavor == "c05" && pno >= ctx.qt(2, 40)) || ((flavor == "c10" || flavor == "c28") && pno >= ctx.qt(6, 200));
+            cfgs.retain(|i| {
+                if all_cfgs[*i].1.use_object_streams {
+                    if seen_os {
+                        return false;
+                    }
+                    seen_os = true;
+                }
+                true
+            });
             cfgs.truncate(cfg_sample);
         } else if ctx.quick() && pno >= 4 {
             // Files with object streams carry a million-entry cross-reference stream (the writer
@@ -125,7 +139,7 @@ pub fn run(ctx: &Ctx, rec: &mut Recorder) -> Result<(), String> {
                         "images": p["images"], "annots": p["annots"]})
                 }).collect();
                 let mut line = json!({"id": id, "file": file, "config": cname, "enc": enc_json, "program_file": progfile, "prog": pno,
-                    "presets": if ctx.quick() && cfg.use_object_streams { json!(["strict"]) } else { json!(["strict", "default"]) }, "objects": "all", "pages": true, "content": true, "metadata": true, "decode": true,
+                    "presets": if flavor == "c05" || flavor == "c10" { json!(["default"]) } else if ctx.quick() && cfg.use_object_streams { json!(["strict"]) } else { json!(["strict", "default"]) }, "objects": "all", "pages": true, "content": true, "metadata": true, "decode": true,
                     "model": {"pages": model_pages, "meta": prog["meta"], "outline": prog["outline"], "named": prog["named"]},
                     "authoring_errors": built.errors});
                 if !password.is_null() {
@@ -139,11 +153,13 @@ pub fn run(ctx: &Ctx, rec: &mut Recorder) -> Result<(), String> {
                     l2["password"] = e["owner_pw"].clone();
                     l2["which"] = json!("owner");
                     writeln!(f, "{}", l2).ok();
-                    let mut l3 = line.clone();
-                    l3["id"] = json!(format!("{id}-wrong"));
-                    l3["password"] = json!(format!("wrong-{}", pno));
-                    l3["which"] = json!("wrong");
-                    writeln!(f, "{}", l3).ok();
+                    if r.chance(1, 3) {
+                        let mut l3 = line.clone();
+                        l3["id"] = json!(format!("{id}-wrong"));
+                        l3["password"] = json!(format!("wrong-{}", pno));
+                        l3["which"] = json!("wrong");
+                        writeln!(f, "{}", l3).ok();
+                    }
                 }
             }
         }
